@@ -1553,3 +1553,132 @@ package stackage
 //@ loop 1 invariant 0 <= i && i <= len(b)
 //@ loop 1 invariant cw(b, 0, false) == builder ++ cw(b, i, last)
 //@ loop 1 invariant len(builder) <= i
+
+//@ func encapValue
+//@ tags C02
+//@ safety C02
+//@ ensures[C02:encap] result == encapS(enc, v)
+//@ modifies nothing
+//@ loop 1 invariant 0 <= i && i <= len(enc)
+//@ loop 1 invariant v == encLF(enc, i) ++ v0 ++ encRF(enc, i)
+
+//@ func (stack).paren
+//@ tags C02
+//@ safety C02
+//@ requires wfs(r)
+//@ let c := scfg(r)
+//@ ensures[C02:paren] result == parenS(F_nodeConfig_opt[c], F_nodeConfig_typ[c], v)
+//@ modifies nothing
+
+//@ func (stack).encapv
+//@ tags C02
+//@ safety C02
+//@ requires wfs(r)
+//@ let c := scfg(r)
+//@ ensures[C02:encapv] e == ite(F_nodeConfig_typ[c] == 0x06, "", encapS(F_nodeConfig_enc[c], v))
+//@ modifies nothing
+
+//@ func (stack).typ
+//@ tags C02
+//@ safety C02
+//@ requires wfs(r)
+//@ let c := scfg(r)
+//@ ensures[C02:typ] kind == opWord(F_nodeConfig_opt[c], F_nodeConfig_typ[c], F_nodeConfig_sym[c]) && typ == F_nodeConfig_typ[c]
+//@ modifies nothing
+
+//@ func (stack).assembleStringStack @spec
+//@ note from the property: LIST kinds join with the delimiter or else a single blank; other kinds with the
+//@ note operator text (blank-padded unless no-padding with a symbol); lead-once: operator once, then the elements.
+//@ note Runs of blanks are immaterial: the result is condensed.
+//@ tags C02
+//@ safety C02
+//@ requires wfs(r) && okslice(str, alloc)
+//@ let c := scfg(r)
+//@ let opt := F_nodeConfig_opt[c]
+//@ let sym := F_nodeConfig_sym[c]
+//@ let ljc := F_nodeConfig_ljc[c]
+//@ let wsep := ite(len(sym) > 0 && bit(opt, 0x0004), ot, "   " ++ ot ++ "   ")
+//@ let body := ite(bit(opt, 0x0008), ite(oc == 0x04, "", ot) ++ joinS(str, ""), ite(oc == 0x04, joinS(str, ite(len(ljc) > 0, ljc, " ")), joinS(str, wsep)))
+//@ let listNoPadNoDelim := oc == 0x04 && !bit(opt, 0x0008) && bit(opt, 0x0004) && len(ljc) == 0
+//@ ensures[C02:assemble] !listNoPadNoDelim ==> result == condense(parenS(opt, F_nodeConfig_typ[c], body))
+//@ ensures[C02:assemble.list-nopad] listNoPadNoDelim ==> result == condense(parenS(opt, F_nodeConfig_typ[c], body))
+//@ modifies nothing
+//@ loop 1 invariant -1 <= rangeindex && rangeindex < len(str)
+//@ loop 1 invariant builder == ite(oc == 0x04, "", ot) ++ joinRow(Mem_Str[arr(str)], off(str), rangeindex + 1, "")
+
+// ---- C02: the composed rendering theorem (mode spec). Domain rdom: no presentation / validity policies,
+// nested stacks and conditions well formed, elements of the modelled kinds, and not the configuration of the
+// recorded finding (no-padding LIST without delimiter).
+
+//@ func getStringer
+//@ assumed reflect-based (MethodByName): the String method value of x, nil for nil, zero values and types without one
+//@ ensures meth == stringerFn(x)
+//@ modifies nothing
+
+//@ func primitiveStringer
+//@ tags C02
+//@ safety C02
+//@ ensures[C02:primitive] isPrimV(x) ==> s == primText(x)
+//@ ensures[C02:primitive.nil] x == nil || is_v_cfgp(x) ==> s == "unsupported_primitive_type"
+//@ modifies nothing
+
+//@ func isKnownPrimitive
+//@ tags C02
+//@ safety C02
+//@ requires len(x) == 1 && okslice(x, alloc)
+//@ let e0 := Mem_Val[arr(x)][off(x)]
+//@ ensures[C02:known.yes] isPrimV(e0) ==> is
+//@ ensures[C02:known.no] e0 == nil || is_v_Stack(e0) || is_v_Cond(e0) || is_v_cfgp(e0) ==> !is
+//@ modifies nothing
+//@ loop 1 invariant 0 <= i && i <= 1
+//@ loop 1 invariant i == 0 ==> !is
+//@ loop 1 invariant is ==> !(e0 == nil || is_v_Stack(e0) || is_v_Cond(e0) || is_v_cfgp(e0))
+//@ loop 1 invariant i == 1 && isPrimV(e0) ==> is
+
+//@ func (condition).string @spec
+//@ tags C02
+//@ safety C02
+//@ requires rdom() && r.cfg != nil && okref(r.cfg, alloc) && F_nodeConfig_typ[r.cfg] == 0x05 && okelem(r.ex) && r.op != nil && isOperator(r.op)
+//@ hint[raw] raw == EX(r.ex)
+//@ hint[val] val == encapS(F_nodeConfig_enc[r.cfg], EX(r.ex))
+//@ ensures[C02:cond.text] result == crT(r.kw, r.op, r.ex, r.cfg)
+//@ modifies Mem_Str[fresh], Cell_strings_Builder[fresh], G_calls_len, G_calls_fn, G_calls_arg
+
+//@ func (Condition).String @spec
+//@ tags C02
+//@ safety C02
+//@ requires rdom() && (r == nil || cwf(r))
+//@ ensures[C02:Cond.String] s == CRv(r)
+//@ modifies Mem_Str[fresh], Cell_strings_Builder[fresh], G_calls_len, G_calls_fn, G_calls_arg
+
+//@ func (stack).defaultAssertionHandler @spec
+//@ tags C02
+//@ safety C02
+//@ requires rdom() && wfs(r) && okelem(x)
+//@ ensures[C02:element] str == ER(scfg(r), x)
+//@ modifies Mem_Str[fresh], Cell_strings_Builder[fresh], G_calls_len, G_calls_fn, G_calls_arg
+
+//@ func (*stack).string @spec
+//@ tags C02
+//@ safety C02
+//@ requires rdom() && (r == nil || wf(r))
+//@ let h := hdr(r)
+//@ let g := cfgOf(r)
+//@ let opt := F_nodeConfig_opt[g]
+//@ let oc := F_nodeConfig_typ[g]
+//@ let sym := F_nodeConfig_sym[g]
+//@ let wot := padS(!bit(opt, 0x0004) && sym == "", opWord(opt, oc, sym))
+//@ let sep := sepS(opt, oc, wot, sym, F_nodeConfig_ljc[g])
+//@ ensures[C02:stack.text] assembled == ite(r == nil, "", SRs(h))
+//@ modifies Mem_Str[fresh], Cell_strings_Builder[fresh], G_calls_len, G_calls_fn, G_calls_arg
+//@ loop 1 invariant 1 <= i && i <= len(h) && hdr(r) == old(hdr(r))
+//@ loop 1 invariant len(str) == 0 && cap(str) == 0 && arr(str) == 0 || fresh(arr(str)) && okslice(str, alloc)
+//@ loop 1 invariant (len(str) == 0) == (JR(h, i - 1, sep) == "")
+//@ loop 1 invariant joinRow(Mem_Str[arr(str)], off(str), len(str), sep) == JR(h, i - 1, sep)
+
+//@ func (Stack).String @spec
+//@ tags C02
+//@ safety C02
+//@ requires rdom() && (r == nil || wf(r))
+//@ ensures[C02:Stack.String] s == SR(r)
+//@ modifies Mem_Str[fresh], Cell_strings_Builder[fresh], G_calls_len, G_calls_fn, G_calls_arg
